@@ -587,13 +587,16 @@ pub fn run_op(sh: &Arc<Shared>, o: &OpDesc) -> Value {
             json!("ok")
         }
         "stop" => {
+            let t0 = Instant::now();
             store.stop();
-            json!("ok")
+            // stop() gives up waiting after 3 s: a call that needed that is reported as such
+            json!(if t0.elapsed() >= std::time::Duration::from_millis(2500) { "timeout" } else { "ok" })
         }
         "drop_store" => {
+            let t0 = Instant::now();
             let d = DroppableStore::new(store.clone());
             drop(d);
-            json!("ok")
+            json!(if t0.elapsed() >= std::time::Duration::from_millis(2500) { "timeout" } else { "ok" })
         }
         "get_state" => store.get_state().json(),
         "metrics" => metrics_json(store),
